@@ -182,10 +182,37 @@ Example d7_witnesses :
   print_expr true false true (EBin BAssign (EId (zs "a")) (EIndex (EId (zs "let")) (EId (zs "x")))) = zs "a=let[x]".
 Proof. vm_compute. repeat split. Qed.
 
-(* known finding C13-D10: js_printer prints the initialiser of a for loop with stmtStart off; the text
-   "let[x]" at the start of a for head is a lexical declaration, not the expression that was printed *)
-Example for_head_let_refuted :
-  print_expr true true false (EIndex (EId (zs "let")) (EId (zs "x"))) = zs "let[x]" /\
-  parse_for_head_text (print_expr true true false (EIndex (EId (zs "let")) (EId (zs "x")))) = None /\
-  parse_for_head_text (print_expr true true true (EIndex (EId (zs "let")) (EId (zs "x")))) = Some (EIndex (EId (zs "let")) (EId (zs "x"))).
+(* finding C13-D10 (repaired by 177d11f): the head of a for loop; without the guard the text "let[x]" would be a
+   lexical declaration, not the expression that was printed *)
+Example for_head_let :
+  print_expr true true true (EIndex (EId (zs "let")) (EId (zs "x"))) = zs "(let)[x]" /\
+  parse_for_head_text (print_expr true true true (EIndex (EId (zs "let")) (EId (zs "x")))) = Some (EIndex (EId (zs "let")) (EId (zs "x"))) /\
+  parse_for_head_text (print_expr true true false (EIndex (EId (zs "let")) (EId (zs "x")))) = None.
 Proof. vm_compute. repeat split. Qed.
+
+(* await and yield (with operand) as keyword prefix operators: await binds like typeof, yield like an assignment;
+   the operand of yield inherits forbidIn, a parenthesised yield does not *)
+Definition ex_tree6 : expr :=
+  EUn UYield (EBin BAssign (EId (zs "a"))
+    (ECond (EUn UAwait (EBin BIn (EId (zs "b")) (EId (zs "c"))))
+           (EBin BPow (EUn UAwait (EId (zs "d"))) (EUn UYield (EId (zs "e"))))
+           (EBin BAdd (EUn UYield (EBin BIn (EId (zs "f")) (EId (zs "g")))) (EUn UAwait (EUn UNot (ERe (zs "x") (zs ""))))))).
+Example ex_tree6_print : print_expr true false true ex_tree6 = zs "yield a=await(b in c)?(await d)**(yield e):(yield f in g)+await!/x/".
+Proof. vm_compute. reflexivity. Qed.
+Example ex_tree6_print_fi : print_expr true true false (EUn UYield (EBin BIn (EId (zs "f")) (EId (zs "g")))) = zs "yield(f in g)".
+Proof. vm_compute. reflexivity. Qed.
+Example ex_tree6_wf : wf ex_tree6 /\ lexok ex_tree6.
+Proof.
+  unfold ex_tree6. simpl. unfold word_ok, word_shape, id_shape, re_shape.
+  repeat split; try discriminate; try (left; repeat split; try discriminate; vm_compute; reflexivity); try (vm_compute; reflexivity); try (intro; reflexivity); try (intro; discriminate).
+Qed.
+Example ex_tree6_roundtrip : forall mw fi ss, parse_text fi (print_expr mw fi ss ex_tree6) = Some (norm ex_tree6).
+Proof. intros mw fi ss. apply print_parse_roundtrip_concrete; apply ex_tree6_wf. Qed.
+
+(* the lexical side condition only excludes a regular expression directly behind a prefix ++/-- *)
+Example lexok_wide : lexok (EUn UPreInc (EDot (ENew (EId (zs "a")) ANil) (zs "b"))) /\ lexok (EUn UPreDec (EIndex (ENum (zs "1")) (EId (zs "x"))))
+  /\ ~ lexok (EUn UPreInc (EDot (ERe (zs "x") (zs "")) (zs "y"))).
+Proof. simpl. repeat split; try (intro; reflexivity). intros [_ H]. specialize (H eq_refl). discriminate. Qed.
+Example lexok_wide_print : print_expr true false true (EUn UPreInc (EDot (ENew (EId (zs "a")) ANil) (zs "b"))) = zs "++new a().b"
+  /\ print_expr true false true (EUn UPreDec (EIndex (ENum (zs "1")) (EId (zs "x")))) = zs "--1[x]".
+Proof. vm_compute. split; reflexivity. Qed.
